@@ -281,34 +281,57 @@ pub fn check(m: &Model, praw: &str, o: &EntOpts, items: &[Result<EntryView, Stri
                 groups.entry(par).or_default().push(e);
             }
         }
-        for (par, g) in groups {
-            // kind grouping first
-            let group_rank = |e: &EntryView| -> u8 {
-                if o.dirs_first {
-                    if e.dir {
-                        0
+        // with both grouping options set the documentation does not say which wins: the siblings
+        // must be grouped by kind one way or the other
+        let rankings: Vec<(bool, bool)> = if o.dirs_first && o.files_first { vec![(true, false), (false, true)] } else { vec![(o.dirs_first, o.files_first)] };
+        let mut first_err = None;
+        let mut some_ok = false;
+        for (df, ff) in rankings {
+            let mut err = None;
+            'groups: for (par, g) in &groups {
+                // kind grouping first
+                let group_rank = |e: &EntryView| -> u8 {
+                    if df {
+                        if e.dir {
+                            0
+                        } else {
+                            1
+                        }
+                    } else if ff {
+                        if e.dir {
+                            1
+                        } else {
+                            0
+                        }
                     } else {
-                        1
-                    }
-                } else if o.files_first {
-                    if e.dir {
-                        1
-                    } else {
                         0
                     }
-                } else {
-                    0
+                };
+                for w in g.windows(2) {
+                    let (a, b) = (w[0], w[1]);
+                    let (ra, rb) = (group_rank(a), group_rank(b));
+                    if ra > rb {
+                        err = Some(("kind-grouping".to_string(), format!("under {}: {} before {}", par, a.path, b.path)));
+                        break 'groups;
+                    }
+                    if ra == rb && a.file_name.as_deref().unwrap_or("").as_bytes() > b.file_name.as_deref().unwrap_or("").as_bytes() {
+                        err = Some(("sibling-order".to_string(), format!("under {}: {} before {}", par, a.path, b.path)));
+                        break 'groups;
+                    }
                 }
-            };
-            for w in g.windows(2) {
-                let (a, b) = (w[0], w[1]);
-                let (ra, rb) = (group_rank(a), group_rank(b));
-                if ra > rb {
-                    return Err(("kind-grouping".into(), format!("under {}: {} before {}", par, a.path, b.path)));
-                }
-                if ra == rb && a.file_name.as_deref().unwrap_or("").as_bytes() > b.file_name.as_deref().unwrap_or("").as_bytes() {
-                    return Err(("sibling-order".into(), format!("under {}: {} before {}", par, a.path, b.path)));
-                }
+            }
+            match err {
+                None => some_ok = true,
+                Some(e) => {
+                    if first_err.is_none() {
+                        first_err = Some(e);
+                    }
+                },
+            }
+        }
+        if !some_ok {
+            if let Some(e) = first_err {
+                return Err(e);
             }
         }
     }
